@@ -207,6 +207,7 @@ def run_property(prop, tier='quick', seed=0, jobs=None, only=None):
     known_by_ob.setdefault(k['obligation'], []).append(k)
 
   n_ob = n_dis = 0
+  nb_ob = nb_dis = 0
   undecided = []
   violations = []
   known_hits = []
@@ -261,9 +262,13 @@ def run_property(prop, tier='quick', seed=0, jobs=None, only=None):
           continue
         violations.append((name, o, r))
         n_ob += 0 if is_bounded else 1
+        nb_ob += 1 if is_bounded else 0
         continue
       if not is_bounded:
         n_ob += 1
+      if is_bounded:
+        nb_ob += 1
+        nb_dis += 1 if o['status'] == 'proved' else 0
       if o['status'] == 'proved':
         if not is_bounded:
           n_dis += 1
@@ -374,6 +379,7 @@ def run_property(prop, tier='quick', seed=0, jobs=None, only=None):
       cover_checks=cover, xcheck_cases=xcheck, xcheck_skipped=xskip,
       samples=samples + b_samples[:6],
       bounded=dict(functions=b_funcs, cases=b_cases, distinct_nontrivial=b_distinct,
+                   contract_obligations_with_stated_bound=nb_ob, of_which_discharged=nb_dis,
                    contracts_with_stated_bound=sorted(set(bounded_contracts)),
                    note='bounded stand-in; never counted in obligations/discharged'),
       dropped_by_extraction=dropped,
@@ -389,7 +395,8 @@ def run_property(prop, tier='quick', seed=0, jobs=None, only=None):
     json.dump(evidence, f, indent=1, default=str)
   out(f'{prop}: obligations={n_ob} discharged={n_dis} undecided={len(undecided)} '
       f'violations={len(violations) + len(b_fail)} known={len(seen_known)} '
-      f'bounded_cases={b_cases} xcheck={xcheck} wall={wall:.1f}s exit={exit_code}')
+      f'bounded_contract_obligations={nb_dis}/{nb_ob} bounded_cases={b_cases} xcheck={xcheck} '
+      f'wall={wall:.1f}s exit={exit_code}')
   return exit_code
 
 
